@@ -1401,6 +1401,8 @@ def tensor_method(ex, t, name, args, kwargs):
         t.requires_grad = bool(flag)
         return t
     if name == 'retain_grad':
+        if not (t.requires_grad or t.deps):
+            raise PyRaise('RuntimeError', "can't retain_grad on Tensor that has requires_grad=False", origin='torch')
         return None
     if name == 'backward':
         return backward(ex, t)
@@ -2480,3 +2482,14 @@ def value_attr(ex, obj, name):   # noqa: F811
 @ext('torch.promote_types')
 def _promote_types(ex, a, k):
     return I.DType(T.promote(str(a[0]), str(a[1])))
+
+
+@ext('torch.zeros_like', 'torch.ones_like')
+def _zeros_like(ex, a, k):
+    t = a[0]
+    if not isinstance(t, STensor):
+        raise PyRaise('TypeError', 'zeros_like(): argument must be a Tensor', origin='torch')
+    dtype = _dtype_kw(k) or t.dtype
+    out = T.const_tensor(t.shape, 0, dtype)
+    out.axes = list(t.axes)
+    return out
